@@ -334,6 +334,138 @@ pub fn test_threads(case: &ThreadCase, n_threads: usize) -> TestResult {
     Ok(Info::new(case.texts.len() >= 2 && !case.spec.tag_models.is_empty()))
 }
 
+/// Cold-start stress: a FRESH predictor with a very large tag table is hit by all threads at the
+/// same instant (barrier), so that anything computed lazily on first use is raced. The expected
+/// result comes from a separate predictor instance used single-threaded.
+#[derive(Clone, Debug, Serialize, Deserialize)]
+pub struct ColdCase {
+    pub n_tagged_tokens: usize,
+    pub trials: usize,
+    pub threads: usize,
+}
+
+fn cold_model(n: usize) -> (ModelSpec, Vec<String>) {
+    use vcommon::mirror::{TagModelSpec, WordSpec};
+    let hira: Vec<char> = ('ぁ'..='ん').collect();
+    let mut spec = ModelSpec { bias: -10, ..ModelSpec::default() };
+    let words = ["あい", "ながいたんご", "うえ", "みじか", "とてもとてもながいたんご"];
+    for w in words {
+        let l = w.chars().count();
+        let mut weights = vec![-60; l + 1];
+        weights[0] = 60;
+        weights[l] = 60;
+        spec.dict.push(WordSpec { word: w.to_string(), weights, comment: String::new() });
+    }
+    let tm = |tok: String, k: usize| TagModelSpec {
+        token: tok,
+        tags: vec![vec![format!("P{}", k % 13)], vec![format!("Y{}", k % 7)]],
+        char_ngrams: vec![],
+        type_ngrams: vec![],
+        bias: vec![],
+    };
+    // the long tokens come last in insertion order; the map order is the hash order anyway
+    let mut k = 0;
+    'outer: for a in &hira {
+        for b in &hira {
+            for c in &hira {
+                if k >= n {
+                    break 'outer;
+                }
+                spec.tag_models.push(tm([*a, *b, *c].iter().collect(), k));
+                k += 1;
+            }
+        }
+    }
+    for (i, w) in words.iter().enumerate() {
+        if !spec.tag_models.iter().any(|t| t.token == *w) {
+            spec.tag_models.push(tm(w.to_string(), 1000 + i));
+        }
+    }
+    let texts = vec![
+        "あいながいたんごうえ".to_string(),
+        "みじかとてもとてもながいたんごあい".to_string(),
+        "うえみじかながいたんご".to_string(),
+    ];
+    (spec, texts)
+}
+
+pub fn test_cold_start(case: &ColdCase) -> TestResult {
+    let (spec, texts) = cold_model(case.n_tagged_tokens);
+    let bytes = spec.to_bytes();
+    let build = || -> Result<Predictor, String> {
+        let m = vaporetto::Model::read(bytes.as_slice()).map_err(|e| e.to_string())?;
+        let mut p = Predictor::new(m, true).map_err(|e| e.to_string())?;
+        p.store_tag_scores(true);
+        Ok(p)
+    };
+    let reference = build()?;
+    let mut want = vec![];
+    for t in &texts {
+        let mut s = Sentence::default();
+        want.push(observe_predicted(&reference, &mut s, t)?);
+    }
+    // sanity: the long tokens are tagged in the single-threaded run
+    ensure!(
+        want[0].0.tokenized.contains("ながいたんご/"),
+        "harness: the cold-start model does not tag its long token: {:?}",
+        want[0].0.tokenized
+    );
+    let want = Arc::new(want);
+    let texts = Arc::new(texts);
+    for trial in 0..case.trials {
+        let p = Arc::new(build()?); // fresh: nothing has been computed on it yet
+        let barrier = Arc::new(std::sync::Barrier::new(case.threads));
+        let results: Vec<Result<(), String>> = std::thread::scope(|scope| {
+            let mut hs = vec![];
+            for th in 0..case.threads {
+                let (p, want, texts, barrier) = (p.clone(), want.clone(), texts.clone(), barrier.clone());
+                hs.push(scope.spawn(move || {
+                    let mut s = Sentence::default();
+                    barrier.wait();
+                    // a little skew so that some threads arrive while others are mid-way
+                    for _ in 0..(th % 4) * 50 {
+                        std::hint::spin_loop();
+                    }
+                    for k in 0..texts.len() {
+                        let i = (k + th) % texts.len();
+                        let got = observe_predicted(&p, &mut s, &texts[i])?;
+                        if got != want[i] {
+                            return Err(format!(
+                                "trial {trial}, thread {th}: first use of a fresh shared predictor gives {:?}, single-threaded {:?}",
+                                got.0.tokenized, want[i].0.tokenized
+                            ));
+                        }
+                    }
+                    Ok(())
+                }));
+            }
+            hs.into_iter().map(|h| h.join().unwrap_or_else(|_| Err("worker thread panicked".into()))).collect()
+        });
+        for r in results {
+            r?;
+        }
+    }
+    Ok(Info::new(true))
+}
+
+/// Thread-stress sub-check alone (used by the ThreadSanitizer build in the thorough tier).
+pub fn run_threads_only(rep: &mut Report) {
+    assert_send_sync::<Predictor>();
+    let n = rep.n(120, 600);
+    rep.run_prop(
+        "threads-tsan",
+        "the thread stress of C08 (one Arc<Predictor> shared by 16 threads) executed in a \
+ThreadSanitizer build: any reported data race aborts the run and is turned into a violation by the \
+supervisor script",
+        n,
+        || {
+            gen::model_case(ModelCfg { min_texts: 3, max_texts: 8, ..ModelCfg::TAGGED })
+                .prop_map(|mc| ThreadCase { spec: mc.spec, texts: mc.texts })
+        },
+        move |c: &ThreadCase| test_threads(c, 16),
+    );
+}
+
 pub fn run(rep: &mut Report) {
     assert_send_sync::<Predictor>();
     let n = rep.n(25000, 250000);
@@ -365,6 +497,20 @@ compile time. Non-trivial = >= 2 texts and a model with tag models.",
                 .prop_map(|mc| ThreadCase { spec: mc.spec, texts: mc.texts })
         },
         move |c: &ThreadCase| test_threads(c, threads),
+    );
+    let (trials, threads) = if rep.quick() { (6, 16) } else { (40, 16) };
+    rep.run_enum(
+        "threads-cold-start",
+        "a fresh predictor with 60,000 / 200,000 tagged tokens is used for the first time by 16 \
+threads released by a barrier (6 / 40 trials each): every thread must get the single-threaded \
+result of a separate predictor instance (targets state that is initialised lazily on first use)",
+        false,
+        vec![
+            ColdCase { n_tagged_tokens: 60_000, trials, threads },
+            ColdCase { n_tagged_tokens: 200_000, trials, threads },
+        ]
+        .into_iter(),
+        test_cold_start,
     );
     rep.assume("the harness does not own the thread schedule: Predictor has no synchronisation to instrument; the schedule clause is covered by the compile-time Send+Sync assertion and differential stress only");
     rep.assume("Token::tag_candidates is observed only where its documented precondition holds (score-storing predictor and fill_tags called)");
